@@ -24,12 +24,62 @@ DROP_ATTRS = re.compile(
 DERIVE = re.compile(r'#\[derive\(([^\]]*)\)\]')
 
 
+CLOSURE_HEAD = re.compile(r'[(,=]\s*(?:move\s+)?\|[^|\n]*\|')
+RUST_KW = set('as break const continue crate else enum extern false fn for if impl in let loop match mod move mut pub ref return self Self static struct super trait true type unsafe use where while async await dyn'.split())
+
+
+def first_occurrence_idents(text):
+    """lower-case-initial identifiers of a function text in order of first occurrence, leaving out keywords, field/method
+    names (after `.`), path segments (next to `::`), macro and function names in call position"""
+    toks = [t for t in rsparse.tokenize(text) if t.kind != 'com']
+    seen = []
+    have = set()
+    for i, t in enumerate(toks):
+        if t.kind != 'id' or t.text in RUST_KW or not (t.text[0].islower() or t.text[0] == '_'):
+            continue
+        prev = toks[i - 1].text if i > 0 else ''
+        nxt = toks[i + 1].text if i + 1 < len(toks) else ''
+        nxt2 = toks[i + 2].text if i + 2 < len(toks) else ''
+        if prev == '.' or (prev == ':' and i > 1 and toks[i - 2].text == ':') or (nxt == ':' and nxt2 == ':') or nxt in ('(', '!'):
+            continue
+        if prev == "'":
+            continue
+        if t.text not in have:
+            have.add(t.text)
+            seen.append(t.text)
+    return seen
+
+
+def rename_contract(c, ren):
+    import copy
+    # only free-standing uses: not a field/method name (after `.`), not a path segment, not in call or macro position
+    pat = re.compile(r'(?<![\w.])(?<!::)(%s)\b(?!\s*(?:\(|::|!(?!=)))' % '|'.join(re.escape(k) for k in ren))
+    f = lambda s: pat.sub(lambda m: ren[m.group(1)], s)
+    c2 = copy.deepcopy(c)
+    c2.clauses = [(sec, [f(l) for l in lines]) for sec, lines in c2.clauses]
+    for lc in c2.loops:
+        lc.clauses = [(sec, [f(l) for l in lines]) for sec, lines in lc.clauses]
+        lc.fingerprint = f(lc.fingerprint)
+        if lc.bind:
+            lc.bind = lc.bind
+    c2.inserts = [(w, n, f(a), [f(l) for l in lines]) for (w, n, a, lines) in c2.inserts]
+    c2.body_prefix = [f(l) for l in c2.body_prefix]
+    for cc in c2.closures:
+        cc.header = f(cc.header)
+        cc.new_header = f(cc.new_header)
+        cc.clauses = [(sec, [f(l) for l in lines]) for sec, lines in cc.clauses]
+    return c2
+
+
 class Unit:
     def __init__(self, name, repo, verif, sentinel=False):
         self.name = name
         self.sentinel = sentinel
         self.sentinels = []
         self.relaxed = []
+        self.fn_closures = {}  # key -> number of closure expressions in the function text (a NEW closure has no contract)
+        self.fn_idents = {}   # key -> identifiers of the function text in order of first occurrence (rename inference)
+        self._base_idents = None
         self.disabled_hints = set()
         self.repo = repo
         self.verif = verif
@@ -182,14 +232,45 @@ class Unit:
     def _emit_fn(self, src, it, rel, key, rules):
         l0, l1 = it.lines
         text = self.clean(it.text)
+        self.fn_idents[key] = first_occurrence_idents(text)
+        self.fn_closures[key] = len(CLOSURE_HEAD.findall(text))
         for r in rules:
             text = r(self, key, text)
         c = self.contracts.get(key)
         if c is not None:
             c.used = True
+            ren = self._inferred_renames(key)
+            if ren:
+                c = rename_contract(c, ren)
+                self.relaxed.append('%s: contract follows renamed locals/parameters: %s' % (key, ', '.join('%s -> %s' % kv for kv in sorted(ren.items()))))
             text = self._splice(key, text, c)
         self.fns.append((key, rel, l0, l1, c is not None))
         return '//@fn %s | %s:%d-%d\n%s\n//@endfn\n' % (key, rel, l0, l1, text.rstrip('\n'))
+
+    def _inferred_renames(self, key):
+        """Pure renames of locals/parameters since the baseline: the sequences of identifiers in order of first occurrence have
+        the same length and differ only at positions where the old name no longer occurs anywhere in the function and the
+        new name did not occur in it before.  Contracts name locals (loop invariants, hints); following a pure rename keeps
+        them meaningful.  Anything else (a swap, a removed or added variable) yields no renaming."""
+        if self._base_idents is None:
+            import json
+            try:
+                self._base_idents = json.load(open(os.path.join(self.verif, 'baseline', 'obligations.json'))).get(self.name, {}).get('fn_idents', {})
+            except Exception:
+                self._base_idents = {}
+        old = self._base_idents.get(key)
+        new = self.fn_idents.get(key)
+        if not old or not new or old == new or len(old) != len(new):
+            return {}
+        olds, news = set(old), set(new)
+        ren = {}
+        for a, b in zip(old, new):
+            if a == b:
+                continue
+            if a in news or b in olds:
+                return {}
+            ren[a] = b
+        return ren
 
     # ---------------------------------------------------------------- contract splice
     def _splice(self, key, text, c):
